@@ -48,8 +48,12 @@ def main(argv=None):
             return 0
         t0 = time.time()
         total = core.explore(prop, args.tier, seed, args.jobs)
+        vac = None
         if hasattr(prop, 'finish'):
-            prop.finish(total, args.tier)
+            try:
+                prop.finish(total, args.tier)
+            except core.Vacuous as e:
+                vac = e
         wall = time.time() - t0
         lines, n_new, known_seen = core.classify(prop.PROPERTY, total, not args.no_fresh_replay)
         path = core.write_evidence(prop, args.tier, seed, total, wall, n_new, known_seen)
@@ -63,6 +67,10 @@ def main(argv=None):
         for ln in lines:
             print(ln)
         print('evidence: ' + path)
+        if vac is not None:
+            # a vacuous run is reported after the violations (they usually explain it), never as a pass
+            print('VACUOUS (harness error, not a pass): %s' % vac)
+            return 1 if n_new else 2
         return 1 if n_new else 0
     except core.Vacuous as e:
         print('VACUOUS (harness error, not a pass): %s' % e)
